@@ -19,6 +19,7 @@ SPEC = os.path.join(ROOT, "spec")
 WORK = os.path.join(ROOT, "work")
 HARNESS_DIR = os.path.join(ROOT, "harness")
 HARNESS = os.path.join(HARNESS_DIR, "target", "release", "verif-harness")
+REPO = os.environ.get("VERIF_REPO", "/repo")     # development only: a snapshot of the repository (vp run --with-repo)
 TLA_JAR = "/opt/veriftools/tla/tla2tools.jar"
 CM_JAR = "/opt/veriftools/tla/CommunityModules-deps.jar"
 CLASSES = os.path.join(ROOT, "java", "classes")
@@ -40,7 +41,12 @@ def build_harness():
     t0 = time.time()
     lock = os.path.join(HARNESS_DIR, "Cargo.lock")
     if not os.path.exists(lock):
-        shutil.copy("/repo/Cargo.lock", lock)
+        shutil.copy(os.path.join(REPO, "Cargo.lock"), lock)
+    if REPO != "/repo":
+        ct = os.path.join(HARNESS_DIR, "Cargo.toml")
+        txt = open(ct).read()
+        if 'path = "/repo"' in txt:
+            open(ct, "w").write(txt.replace('path = "/repo"', f'path = "{REPO}"'))
     env = dict(os.environ, CARGO_NET_OFFLINE="true")
     p = subprocess.run(["cargo", "build", "--release", "--offline"], cwd=HARNESS_DIR, env=env,
                        stdout=subprocess.PIPE, stderr=subprocess.STDOUT, text=True)
